@@ -9,7 +9,7 @@ from ..runner import Config
 class C20(Config):
     pid = "C20"
     proof_targets = ["C20/Properties.vo"]
-    corr_targets = ["C20/Corr.vo", "C20/Wf.vo"]
+    corr_targets = ["C20/Corr.vo", "C20/Wf.vo", "C20/RealHash.vo"]
     audit_dirs = ["Lib", "C20"]
     header = ("From V.Lib Require Import Base MachInt Hex.\n"
               "From V.C20 Require Import Model Spec Corr Wf.\n"
@@ -29,7 +29,9 @@ class C20(Config):
         "axioms: none (every theorem is closed under the global context)",
         "BLAKE2b-256 is a Section variable H in all theorems; in the correspondence run H is the table of the "
         "(branch, pre-image, digest) triples found in the implementation's nodes, each triple re-verified by "
-        "Python hashlib.blake2b (person = 'ZcashHistory' || branch_le) in vlib/props/c20.py",
+        "Python hashlib.blake2b (person = 'ZcashHistory' || branch_le) in vlib/props/c20.py, and recomputed inside "
+        "Coq with the Gallina BLAKE2b of coq/Lib/Blake2b.v (coq/C20/RealHash.v: all tables in the thorough tier, a "
+        "sample in the quick tier; there the model is also run with that hash directly)",
         "harness/pure/src/bin/c20.rs printers, catch_unwind wrappers and its bookkeeping of the array representation; "
         "vlib case-file generator",
         "model of u32/u64/U256 arithmetic in coq/C20/Model.v (overflow-check flag carried by each case)",
@@ -41,15 +43,15 @@ class C20(Config):
                    "panics or wraps: known finding C20-combine-overflow)",
                    "array length < 2^32 (u32 indices)"]
     partial_clauses = [
-        "partial views (Tree::new(length, peaks, extra) with several peaks, then an operation): correspondence + "
-        "from-scratch property check only (every tree size 1..33 quick / 1..130 thorough, all three versions); "
-        "no partial_view_refines theorem",
-        "node/entry canonicity (accepted bytes = canonical encoding) is a theorem for CompactSize only; for whole "
-        "node/entry records it is evaluated by prop_case on mutated encodings, the theorem proved is the round trip",
-        "subtree commitments: H is an arbitrary function in the theorems; BLAKE2b itself is checked per recorded "
-        "triple with hashlib, not modelled",
-        "no bridge theorem run_case => prop_case; prop_case is evaluated independently on every case (long "
-        "histories: from-scratch rebuild at a deterministic subset of steps, returned links/counts/lengths at all)",
+        "bridge theorem (agreement with the model => property checker) covers all codec / combine cases and all "
+        "full-tree histories; partial-view cases are evaluated by prop_case only (the view theorems C20_view_* / "
+        "C20_partial_view_refines_* / C20_tree_new_view are proved, but not tied to the boolean checker)",
+        "the bridge concludes prop_main = prop_case without the harness-side flag hok (root commitment recomputed "
+        "by the harness); hok is evaluated on every case, and the commitments are also compared through the hash "
+        "tables (hashlib; Gallina BLAKE2b in the thorough tier)",
+        "BLAKE2b is an arbitrary function H in all theorems",
+        "long histories: prop_case rebuilds from scratch at a deterministic subset of steps (returned links, counts "
+        "and lengths at all steps)",
         "release profile (wrapping counters) is modelled (oc = false) and exercised in the thorough tier only",
     ]
 
@@ -88,6 +90,55 @@ class C20(Config):
         if bad:
             ctx["violations"].append({"case": bad[0], "profile": "debug", "clause": "subtree-commitment",
                                       "detail": "a node's commitment is not BLAKE2b-256(ZcashHistory||branch, left||right): %d triple(s)" % len(bad)})
+        self.real_hash(ctx, pat)
+
+    def real_hash(self, ctx, pat):
+        """Commitments inside Coq: the abstract hash instantiated with the Gallina BLAKE2b of V.Lib.Blake2b
+        (coq/C20/RealHash.v).  `hashes_real`: every triple of the case's table is recomputed in Coq;
+        `run_case_real`: the model is run with the real hash instead of the table.  Thorough: every case that
+        carries a table; quick: a small sample (about one second of Coq time)."""
+        import os
+        import shutil
+        from concurrent.futures import ThreadPoolExecutor
+        from .. import core
+        ok, out = core.coq_make(["C20/RealHash.vo"])
+        if not ok:
+            ctx["problems"].append({"kind": "model", "what": "coq/C20/RealHash.v no longer compiles", "log": out[-3000:]})
+            return
+        lines = [c for c, _rel in (ctx.get("cases") or []) if (c.startswith("CTree") or c.startswith("CCombine")) and pat.search(c)]
+        if ctx.get("tier") != "thorough":
+            lines = sorted(lines, key=len)[:24]
+        if not lines:
+            return
+        header = ("From V.Lib Require Import Base MachInt Hex.\n"
+                  "From V.C20 Require Import Model Spec Corr Wf RealHash.\n"
+                  "Local Open Scope Z_scope.")
+        fns = dict(run="run_case_real", prop="hashes_real", wf="wf_case", cls="known_class", tag="tag_case")
+        wd = os.path.join(core.CACHE, "run", "C20real")
+        shutil.rmtree(wd, ignore_errors=True)
+        os.makedirs(wd)
+        size = 24
+        shards = [lines[i:i + size] for i in range(0, len(lines), size)]
+        bad_run, bad_tbl, errs = [], [], []
+        with ThreadPoolExecutor(max_workers=16) as ex:
+            futs = [ex.submit(core.eval_shard, "C20", header, fns, sh, i, wd, 1800) for i, sh in enumerate(shards)]
+            for i, f in enumerate(futs):
+                r = f.result()
+                if "error" in r:
+                    errs.append(r["error"])
+                    continue
+                bad_run += [shards[i][j] for j in r["run"]]
+                bad_tbl += [shards[i][j] for j in r["prop"]]
+        ev = ctx.setdefault("extra_evidence", {})
+        ev["real_hash_cases_in_coq"] = len(lines)
+        if errs:
+            ctx["problems"].append({"kind": "corr-eval", "what": "coqc failed on the real-hash evaluation", "log": errs[0][-2000:]})
+        if bad_tbl:
+            ctx["violations"].append({"case": min(bad_tbl, key=len), "profile": "debug", "clause": "subtree-commitment (Gallina BLAKE2b)",
+                                      "detail": "a stored commitment differs from BLAKE2b-256 computed in Coq on %d case(s)" % len(bad_tbl)})
+        elif bad_run:
+            ctx["problems"].append({"kind": "correspondence", "what": "model run with the Gallina BLAKE2b disagrees with the implementation on %d case(s)" % len(bad_run),
+                                    "minimal": min(bad_run, key=len)})
 
 
 CONFIG = C20()
